@@ -45,7 +45,13 @@ pub fn dashless_in_data(case: &Case) -> bool {
     case.parts.iter().any(|(_, b)| contains(b, d.as_bytes()))
 }
 
+/// header set index of a part that has no header lines at all (rejection cases only)
+pub const NO_HEADERS: usize = 9999;
+
 fn header_list(i: usize) -> Vec<Header> {
+    if i == NO_HEADERS {
+        return vec![];
+    }
     HEADER_SETS[i % HEADER_SETS.len()].iter().map(|(n, v)| Header { name: n.to_string(), value: v.to_string() }).collect()
 }
 
@@ -106,6 +112,7 @@ pub fn check(case: &Case) -> (String, bool, Vec<(String, String)>) {
     let (data, param): (Vec<u8>, String) = if case.framing == "library" {
         match guard(|| FormMultipartData::generate(parts, &case.boundary)) {
             Err(p) => return ("panic".into(), true, vec![(format!("{}:panic:generate:{}:{}", pre, crate::props::c04::call_site(&p.location), panic_class(&p.message)), p.message)]),
+            Ok(Err(_)) if case.rejection == "a-part-without-headers" => return ("n/a".into(), false, vec![]),
             Ok(Err(e)) => return ("generate-err".into(), true, vec![(format!("{}:generate-refuses-a-valid-part-list", pre), e)]),
             Ok(Ok(d)) => (d, case.boundary.clone()),
         }
@@ -256,6 +263,15 @@ pub fn run(ctx: &mut Ctx) {
             go(ctx, Case { framing: framing.into(), boundary: boundary.to_string(), parts: three, rejection: String::new() });
             let eight: Vec<(usize, Vec<u8>)> = (0..8).map(|i| (i % 2, bodies[(i * 7) % bodies.len()].clone())).collect();
             go(ctx, Case { framing: framing.into(), boundary: boundary.to_string(), parts: eight, rejection: String::new() });
+            // a part without header lines at every position of lists of 1..4 parts
+            for n in 1..=4usize {
+                for k in 0..n {
+                    for b in [b"a".to_vec(), b"".to_vec()] {
+                        let parts: Vec<(usize, Vec<u8>)> = (0..n).map(|i| if i == k { (NO_HEADERS, b.clone()) } else { (i % 2, b"x".to_vec()) }).collect();
+                        go(ctx, Case { framing: framing.into(), boundary: boundary.to_string(), parts, rejection: "a-part-without-headers".into() });
+                    }
+                }
+            }
             for rej in ["opening-boundary-removed", "closing-boundary-removed", "part-without-headers"] {
                 for b in [b"a".to_vec(), b"".to_vec(), b"a\r\nb".to_vec()] {
                     go(ctx, Case { framing: framing.into(), boundary: boundary.to_string(), parts: vec![(0, b.clone())], rejection: rej.into() });
